@@ -763,3 +763,39 @@ def rule_goto_cache_validity(ctx, rep, config="c-lib"):
         else:
             rep.ok("R27-goto-valid", key, sample={"rewriter": w.where(), "emptied_at": [x.where() for x in flushes][:2]})
     rep.floor("R27-goto-valid", "calls of build_pl that rewrite the parser list", n, 1)
+
+
+def rule_hash_multiplier(ctx, rep, config="c-lib"):
+    rep.rule("R27-hash-mult", "the hash functions of yaep.c combine the parts of a key as  h = h * m + part  in 32 bits: the multiplier m is odd (invertible modulo 2^32), so "
+                              "that every part still influences the value after any number of steps -- with an even multiplier (a power of two most of all) the parts "
+                              "that entered first are shifted out: keys that differ only there collide, and the sets of a long input differ exactly in the parts that "
+                              "enter first (core before distances before terminal)")
+    p = ctx.prog(config)
+    n = 0
+    for f in p.m.defined():
+        if f.module and not f.module.startswith("yaep."):
+            continue
+        is_hash = "hash" in f.name or any(s_.op == "store" and "hash" in (resolve_addr(f, s_.ops[1]).last_field() or "").split(".")[-1] for s_ in f.all_insts())
+        if not is_hash:
+            continue
+        roots = [r.ops[0] for r in f.all_insts() if r.op == "ret" and r.ops] + \
+                [s_.ops[0] for s_ in f.all_insts() if s_.op == "store" and "hash" in (resolve_addr(f, s_.ops[1]).last_field() or "").split(".")[-1]]
+        sl = _value_slice(f, roots)
+        for k in sorted(sl):
+            i = f.insts.get(k)
+            if i is None or i.op not in ("mul", "shl") or i.ty != "i32":
+                continue
+            c = const_int(i.ops[1]) if const_int(i.ops[1]) is not None else const_int(i.ops[0])
+            if c is None:
+                continue
+            n += 1
+            rep.cover(p, [f.name])
+            key = "%s/multiplier@%s" % (f.name, i.where().rsplit(":", 2)[-2])
+            mult = c if i.op == "mul" else (1 << c)
+            if mult % 2 == 1 and mult > 1:
+                rep.ok("R27-hash-mult", key, nontrivial=False, sample={"multiplier": mult})
+            else:
+                rep.violation("R27-hash-mult", key, "%s multiplies the running hash by %d, which is even: after %d steps the parts that entered first have left the 32-bit "
+                              "value -- the keys of a long input collide by the thousand, every lookup walks through them" % (
+                                  f.name, mult, 32 // max(1, (mult & -mult).bit_length() - 1) if mult > 0 else 1), where=i.where(), witness=[i.where()])
+    rep.floor("R27-hash-mult", "multiplications in the hash functions", n, 8)
